@@ -1188,6 +1188,13 @@ BLOCK_PRINTERS = [
                          ("End_Interface_Stmt", "END INTERFACE g")]),
     ("Forall_Construct", [("Forall_Construct_Stmt", "FORALL (i = 1 : n)"), ("Assignment_Stmt", "a(i) = 0"), ("End_Forall_Stmt", "END FORALL")]),
     ("Associate_Construct", [("Associate_Stmt", "ASSOCIATE(x => y)"), ("Assignment_Stmt", "x = 1"), ("End_Associate_Stmt", "END ASSOCIATE")]),
+    # comments are children like any other: a banner (the same comment line above and below), the same remark twice
+    ("Specification_Part", [("Comment", "!-----"), ("Type_Declaration_Stmt", "INTEGER :: i"), ("Comment", "!-----")]),
+    ("Execution_Part", [("Comment", "! again"), ("Assignment_Stmt", "x = 1"), ("Comment", "! again")]),
+    ("Implicit_Part", [("Comment", "!-----"), ("Comment", "! text"), ("Comment", "!-----")]),
+    ("Program", [("Comment", "! same"), ("Comment", "! same")]),
+    ("If_Construct", [("If_Then_Stmt", "IF (a) THEN"), ("Comment", "! c"), ("Assignment_Stmt", "b = 1"), ("Comment", "! c"), ("End_If_Stmt", "END IF")]),
+    ("Module", [("Module_Stmt", "MODULE m"), ("Comment", "! c"), ("Comment", "! c"), ("End_Module_Stmt", "END MODULE m")]),
 ]
 
 
